@@ -173,12 +173,16 @@ class Map:
 
         :param rulefactory: a :class:`Rule` or :class:`RuleFactory`
         """
-        for rule in rulefactory.get_rules(self):
-            rule.bind(self)
-            if not rule.build_only:
-                self._matcher.add(rule)
-            self._rules_by_endpoint.setdefault(rule.endpoint, []).append(rule)
-        self._remap = True
+        try:
+            for rule in rulefactory.get_rules(self):
+                rule.bind(self)
+                if not rule.build_only:
+                    self._matcher.add(rule)
+                self._rules_by_endpoint.setdefault(rule.endpoint, []).append(rule)
+        finally:
+            # Also when the factory fails half-way, the rules it did
+            # hand out have to be sorted in before the next use.
+            self._remap = True
 
     def bind(
         self,
